@@ -175,6 +175,10 @@ func (e *BinaryOpExpr) execEqual(kv KVPair, ctx *ExecuteCtx) (bool, error) {
 			return lbool == rbool, nil
 		}
 	}
+	// Float numbers, or an integer compared with a float
+	if ret, err := execNumberCompare(rleft, rright, "="); err == nil {
+		return ret, nil
+	}
 	return false, NewExecuteError(e.GetPos(), "= operator left or right expression has wrong type")
 }
 
